@@ -2,6 +2,7 @@ package batching
 
 import (
 	"context"
+	"sync"
 )
 
 type BatchFetcher[T, R any] func(ctx context.Context, events []T) ([]R, error)
@@ -15,6 +16,10 @@ type ReorderFetcher[T, R any] struct {
 	fetchBatch BatchFetcher[T, R]
 	errChan    chan error
 	buffer     *ReorderBuffer[[]R]
+
+	// Guards taking a batch and reserving its place in the output order. The size
+	// and time-out flushes run on different goroutines.
+	flushMu sync.Mutex
 }
 
 type NewReorderFetcherParams[T, R any] struct {
@@ -69,15 +74,20 @@ func (d *ReorderFetcher[T, R]) Flush(ctx context.Context) {
 
 // flush the current batch and then asynchronously run the `FetchBatch` callback.
 func (d *ReorderFetcher[T, R]) flush(ctx context.Context, token BatchToken) {
+	// A batch must get its sequence number before a later batch can be taken,
+	// otherwise a concurrent flush of the next batch is emitted first.
+	d.flushMu.Lock()
 	events := d.batcher.Flush(token)
 	if d.batcher == nil {
 		panic("batcher became nil")
 	}
 	if len(events) == 0 {
+		d.flushMu.Unlock()
 		return
 	}
 
 	seqNum := d.buffer.Reserve()
+	d.flushMu.Unlock()
 	go func() {
 		result, err := d.fetchBatch(ctx, events)
 		if err != nil {
